@@ -80,7 +80,7 @@ def compare_csv(path, dist):
     if len(rows) != len(expected):
         return ["%d rows, %d control points" % (len(rows), len(expected))]
     for r_, (an, sn, vals) in zip(rows, expected):
-        if r_[0] != an[:18] or r_[1] != sn[:18]:
+        if r_[0] != an or r_[1] != sn:
             bad.append("row labelled %s/%s, expected %s/%s" % (r_[0], r_[1], an, sn))
             break
         for h, cell in zip(header[2:], r_[2:]):
@@ -126,18 +126,35 @@ def check_files(chk, MX, tmp):
         sd, acs = gen_case(rng, chk.hist, two)
         name, variants = JSON_METHODS[it % len(JSON_METHODS)] if rng.random() < 0.8 else ("distributions", [{}, {"radians": False}])
         kw = copy.deepcopy(rng.choice(variants))
+        if it == 1:
+            # (enumerated) names longer than the usual ones: the rows of the CSV are attributed to segments by their names
+            name, kw = "distributions", {}
+            acs = [("research_glider_configuration_%d" % k_, dict(a_, wings={"long_outboard_panel_" + w_: v_ for w_, v_ in a_["wings"].items()}), st_, cs_)
+                   for k_, (n_, a_, st_, cs_) in enumerate(acs)]
+            chk.count("file:long-names")
+        if it == 2:
+            # (enumerated) a density field: the reference density at the aircraft is one interpolated value
+            name, kw = "solve_forces", {}
+            sd["scene"].setdefault("atmosphere", {})["rho"] = [[x_, y_, z_, 0.0023769 * (1.0 + 2.0e-5 * z_)] for x_ in (-500.0, 500.0) for y_ in (-500.0, 500.0)
+                                                                for z_ in (-3000.0, 100.0)]
+            chk.count("file:density-field")
         if two and name.startswith("pitch_trim"):
-            kw["aircraft"] = "ac0"
+            kw["aircraft"] = acs[0][0]
         fn = os.path.join(tmp, "out_%d.%s" % (it, "csv" if name == "distributions" else "json"))
         try:
-            with_file = getattr(fresh_scene(MX, sd, acs), name)(filename=fn, **copy.deepcopy(kw))
             without = getattr(fresh_scene(MX, sd, acs), name)(**copy.deepcopy(kw))
         except Exception as e:
             chk.count("files-error=" + type(e).__name__)
             continue
+        rep = dict(kind="file-vs-api", method=name, kwargs=kw, scene=sd, aircraft=acs)
+        try:
+            with_file = getattr(fresh_scene(MX, sd, acs), name)(filename=fn, **copy.deepcopy(kw))
+        except Exception as e:
+            chk.case(dict(kind="file", method=name, kw=kw, two=two, it=it), nontrivial=True)
+            chk.violation("file:raises:" + name, dict(rep, what="the call returns without filename= and raises %s: %s with it" % (type(e).__name__, str(e)[:200])))
+            continue
         chk.case(dict(kind="file", method=name, kw=kw, two=two, it=it), nontrivial=True)
         chk.count("file=" + name)
-        rep = dict(kind="file-vs-api", method=name, kwargs=kw, scene=sd, aircraft=acs)
         if not os.path.exists(fn):
             chk.violation("file:missing:" + name, dict(rep, what="no file written"))
             continue
@@ -190,6 +207,7 @@ def check_cli(chk, MX, tmp):
             # commands run in the order given: an analysis that changes the state, then exports (which draw the deflected controls), then analyses
             run = [("pitch_trim", {"set_trim_state": True}, None), ("export_stl", {"section_resolution": 8}, None), ("solve_forces", {}, None),
                    ("export_vtk", {"section_resolution": 8}, None), ("distributions", {}, None)]
+            run.insert(1, ("_N", {}, None))        # names an attribute of the scene that is not a function: an unknown command like any other
         for bogus in rng.sample(["bogus_command", "solve_force", "Derivatives", "_solve_linear_", "trim"], rng.randint(1, 2)):
             run.insert(rng.randint(0, len(run)), (bogus, {"x": 1}, None))
         inp = copy.deepcopy(sd)
@@ -319,6 +337,12 @@ def check_no_mutation(chk, MX, tmp):
             chk.count("no-mutation:array-state")
         if style == "scene-dict":
             sd.setdefault("scene", {})["aircraft"] = {name: {"file": ac, "state": st, "control_state": cs}}
+        if it % 4 == 3:
+            # (enumerated) the optional "airfoils" entry left out: every section uses the default airfoil
+            ac.pop("airfoils", None)
+            for w in ac["wings"].values():
+                w.pop("airfoil", None)
+            chk.count("no-mutation:default-airfoil")
         if it % 2 == 0:
             # options given as lists / nested dictionaries are the easiest to alias: user cluster points on a cosine grid
             for w in ac["wings"].values():
@@ -350,6 +374,18 @@ def check_no_mutation(chk, MX, tmp):
                     getattr(sc, m_)(**kw)
                 except Exception as e:
                     chk.count("analysis-error=" + type(e).__name__)      # (a failed analysis must not have touched the inputs either)
+                    if m_ == "export_pylot_model" and type(e).__name__ not in ("SolverNotConvergedError", "MaxIterationError"):
+                        # the model file is made of reference geometry and derivatives: when those are available the export is too
+                        try:
+                            f_ = MX.Scene(copy.deepcopy(snap[0]))
+                            if style == "add_aircraft":
+                                f_.add_aircraft(name, copy.deepcopy(snap[1]), state=copy.deepcopy(snap[2]), control_state=copy.deepcopy(snap[3]))
+                            f_.derivatives(); f_.get_aircraft_reference_geometry()
+                            chk.violation("export:pylot-raises", dict(rep, what="export_pylot_model raises %s: %s where derivatives() and the reference geometry are available"
+                                                                      % (type(e).__name__, str(e)[:200])))
+                            break
+                        except Exception:
+                            pass
                 r = strict_eq(snap, (sd, ac, st, cs)) or strict_eq(kw0, kw, "kwargs")
                 if r:
                     chk.violation("mutation:" + m_, dict(rep, what="%s modified the caller's input: %s" % (m_, r), sequence=[s_[0] for s_ in seq]))
@@ -370,6 +406,17 @@ def check_no_mutation(chk, MX, tmp):
             else:
                 sA, sB = MX.Scene(sd), MX.Scene(sd)
             ref = api.solve(sB)
+            if isinstance(st.get("angular_rates"), np.ndarray):
+                # the caller goes on using its own arrays: nothing it does to them reaches a scene already built
+                keep = copy.deepcopy(st)
+                st["angular_rates"] += 0.2
+                st["position"][2] -= 5000.0
+                st["velocity"] *= 0.5
+                moved = api.solve(sB)
+                for k_ in ("angular_rates", "position", "velocity"):
+                    st[k_][:] = keep[k_]
+                if api.compare(ref, moved, rtol=0.0, atol=0.0):
+                    chk.violation("independence:caller-arrays", dict(rep, what="editing the caller's state arrays in place changed the results of a scene built from them"))
             sA.set_aircraft_state(state={"velocity": 55.0, "alpha": 7.0, "beta": -3.0}, aircraft=name)
             sA.set_aircraft_control_state(control_state={"elevator": -8.0, "aileron": 6.0}, aircraft=name)
             try:
